@@ -37,13 +37,16 @@ PINS = {  # substring of the commit subject -> (property, [pinned replay files])
 }
 PINS.update({
     "diff VJP zero cotangent": ("C05", ["regress/C05/diff-empty-complex.json"]),
-    "linspace JVP": ("C05", ["regress/C05/linspace-jvp-mixed.json"]),
+    "linspace JVP returns a tangent": ("C05", ["regress/C05/linspace-jvp-mixed.json"]),
     "where JVP": ("C05", ["regress/C05/where-jvp-mixed.json"]),
 })
 PINS["select returns numpy"] = ("C06", ["regress/C06/select-mixed-dtype.json"])
 PINS["gradient of x[list_of_bools]"] = ("C11", ["regress/C11/bool-list-index.json"])
 PINS["indexed and dense contributions to a 0-d"] = ("C11", ["regress/C11/rank0-sparse-dense.json"])
 PINS["trace-depth counter is per thread"] = ("C20", ["regress/C20/shared-trace-counter.json"])
+PINS["cumsum VJP returns a cotangent of the argument"] = ("C15", ["regress/C15/cumsum-0d-axis.json"])
+PINS["linspace VJP unbroadcasts"] = ("C01", ["regress/C01/linspace-broadcast.json"])
+PINS["linspace JVP broadcasts"] = ("C02", ["regress/C02/linspace-broadcast-jvp.json"])
 EXTRA = {}
 
 
